@@ -41,6 +41,28 @@ KEY_DESID = 'DataExtensionHeader.DESID:conditional-presence-differs-between-enco
 KEY_ICORDS0 = 'ImageSegmentHeader0.ICORDS:conditional-presence-differs-between-encoder-and-decoder'
 KEY_DEVT = 'NITFSecurityTags0.DEVT:length-follows-DWNG-but-bytes-follow-the-value'
 KEY_ZEROBANDS = 'ImageBands:zero-bands-encoded-as-NBANDS-0-without-XBANDS'
+KEY_CTRL = '{cls}.{fld}:conditional-part-not-updated-when-the-controlling-field-is-reassigned-alone'
+
+
+def controllers(descs):
+    """{(description name, field name)} of the fields that decide the presence of a conditional part of the same record"""
+    out = set()
+
+    def cvars(c):
+        if c[0] in ('strIn', 'pos'):
+            return {c[1]}
+        if c[0] == 'not':
+            return cvars(c[1])
+        if c[0] == 'and':
+            return cvars(c[1]) | cvars(c[2])
+        return set()
+    for name, node in descs.items():
+        if node[0] != 'rec':
+            continue
+        for f in node[1]:
+            if f['node'][0] == 'cond':
+                out |= {(name, v) for v in cvars(f['node'][1])}
+    return out
 
 
 def hx(b):
@@ -645,6 +667,47 @@ def oracle(label, desc, inst, params):
     return msgs, b, back
 
 
+# --------------------------------------------------------------------------------------------- a freshly constructed element with the same field values
+
+def fresh(obj, params=None):
+    """build a NEW element through the public constructors from the field values `obj` shows (recursively); nothing but those values
+    can enter it"""
+    import numpy
+    from sarpy.io.general.nitf_elements import base as B
+    from sarpy.io.general.nitf_elements import nitf_head as H
+    from sarpy.io.general.nitf_elements.image import MaskSubheader
+    if obj is None or isinstance(obj, (str, int, bytes, float)):
+        return obj
+    if isinstance(obj, numpy.ndarray):
+        return obj.copy()
+    cls = obj.__class__
+    if isinstance(obj, B.UnknownTRE):
+        return B.UnknownTRE(obj.TAG, bytes(obj.DATA))
+    if isinstance(obj, B.TRE):
+        return B.TRE.from_bytes(obj.to_bytes(), 0)          # registered TREs are read-only objects built from bytes
+    if isinstance(obj, B.TREList):
+        return cls(tres=[fresh(t) for t in obj.tres])
+    if isinstance(obj, B.UserHeaderType):
+        return cls(OFL=obj.OFL, data=fresh(obj.data))
+    if isinstance(obj, B.Unstructured):
+        return cls(data=fresh(obj.data))
+    if isinstance(obj, B.NITFLoop):
+        return cls(values=[fresh(v) for v in obj.values])
+    if isinstance(obj, H._ItemArrayHeaders):
+        return cls(subhead_sizes=obj.subhead_sizes.copy(), item_sizes=obj.item_sizes.copy())
+    if isinstance(obj, B.NITFElement):
+        kw = {}
+        for fld in cls._ordering:
+            try:
+                kw[fld] = fresh(getattr(obj, fld))
+            except AttributeError:
+                kw[fld] = None
+        if isinstance(obj, MaskSubheader):
+            return cls(band_depth=obj.band_depth, blocks=obj.blocks, **kw)
+        return cls(**kw)
+    raise TypeError(f'cannot rebuild {cls.__name__}')
+
+
 # --------------------------------------------------------------------------------------------- the session used by c13.py
 
 class Session:
@@ -721,27 +784,215 @@ class Session:
                 self.fails.append({'kind': 'construct', 'msg': f'{label}: constructing a valid element raised {type(inst).__name__}: {inst}', 'case': label})
                 continue
             st['x_instances'] = st.get('x_instances', 0) + 1
-            key = classify(desc, inst)
-            msgs, b, back = oracle(label, desc, inst, params)
-            for m in msgs:
-                f = {'kind': 'element-x', 'msg': m, 'case': label, 'bytes': (b.hex()[:2000] if b is not None else None)}
-                if key:
-                    f['key'] = key
-                self.fails.append(f)
-            if desc not in self.descs or b is None:
-                continue
-            try:
-                v = to_value(self.descs, self.descs[desc], inst)
-                vb = to_value(self.descs, self.descs[desc], back) if back is not None else None
-            except Unrepresentable as e:
-                self.disagreements.append({'case': label, 'msg': f'instance cannot be expressed as a model value: {e}'})
-                continue
-            env = self.env_of(desc, params)
-            i_enc = drv.ask(f'fmt2 enc {desc} {env} {v}')
-            i_dec = drv.ask(f'fmt2 dec {desc} {env} {hx(b + TRAILER)}')
-            self.jobs.append((label, desc, inst, (b, v, vb, key), i_enc, i_dec, params))
+            self.check_instance(drv, label, desc, inst, params, classify(desc, inst))
             # the TRE envelopes inside a user header area: decodeAll must give the same items as the TRE list
             self._tre_jobs(drv, label, inst)
+        self.histories(drv)
+
+    def check_instance(self, drv, label, desc, inst, params, key=None, history=None):
+        """byte-level oracle + model correspondence for the CURRENT state of `inst` (everything is evaluated now, only the driver's
+        answers are read later, so the instance may be mutated afterwards)"""
+        msgs, b, back = oracle(label, desc, inst, params)
+        for m in msgs:
+            f = {'kind': 'element-x', 'msg': m, 'case': label, 'bytes': (b.hex()[:2000] if b is not None else None)}
+            if history is not None:
+                f['history'] = history
+                f['class'] = desc
+                f['bytes'] = b.hex() if b is not None else None
+            if key:
+                f['key'] = key
+            self.fails.append(f)
+        if desc not in self.descs or b is None:
+            return b
+        try:
+            v = to_value(self.descs, self.descs[desc], inst)
+            vb = to_value(self.descs, self.descs[desc], back) if back is not None else None
+        except Unrepresentable as e:
+            self.disagreements.append({'case': label, 'msg': f'instance cannot be expressed as a model value: {e}'})
+            return b
+        except Exception as e:
+            self.disagreements.append({'case': label, 'msg': f'reading the instance by its description raised {type(e).__name__}: {e}', 'key': key})
+            return b
+        env = self.env_of(desc, params)
+        i_enc = drv.ask(f'fmt2 enc {desc} {env} {v}')
+        i_dec = drv.ask(f'fmt2 dec {desc} {env} {hx(b + TRAILER)}')
+        self.jobs.append((label, desc, inst, (b, v, vb, key, inst.get_bytes_length()), i_enc, i_dec, params))
+        return b
+
+    # ---- mutation histories: construct or decode, then re-assign through the public setters, crossing the conditional thresholds
+    def histories(self, drv):
+        """After EVERY step: the byte-level oracle (length, round trip, re-encode identity, standard walk), the model correspondence, and
+        equality with the bytes of a FRESHLY constructed element holding the same field values (no state may leak into the encoding)."""
+        import numpy
+        from sarpy.io.general.nitf_elements.image import ImageBands, ImageComments, ImageComment
+        from sarpy.io.general.nitf_elements.des import DESUserHeader
+        rng = self.rng
+        st = self.stats
+        n_hist = 2 if self.tier == 'quick' else 25
+        n_steps = 6 if self.tier == 'quick' else 10
+
+        def bands(k):
+            return [image_band(rng) for _ in range(k)]
+
+        def geo():
+            return ''.join(rng.choice('0123456789NSEW') for _ in range(60))
+
+        def img_steps(ver):
+            blank = '' if ver == 1 else 'N'
+            out = [('Bands.values=%d' % k, lambda h, k=k: setattr(h.Bands, 'values', bands(k))) for k in (1, 3, 9, 10, 12, 2, 11)]
+            out += [('Bands=ImageBands(%d)' % k, lambda h, k=k: setattr(h, 'Bands', ImageBands(values=bands(k)))) for k in (1, 10, 4)]
+            out += [('band0.LUTD=set', lambda h: setattr(h.Bands.values[0], 'LUTD', numpy.arange(8, dtype='uint8').reshape((2, 4)))),
+                    ('band0.LUTD=None', lambda h: setattr(h.Bands.values[0], 'LUTD', None)),
+                    ('IC=C3;COMRAT', lambda h: (setattr(h, 'IC', 'C3'), setattr(h, 'COMRAT', '00.1'))),
+                    ('IC=NC;COMRAT=None', lambda h: (setattr(h, 'IC', 'NC'), setattr(h, 'COMRAT', None))),
+                    ('IC=M3;COMRAT', lambda h: (setattr(h, 'IC', 'M3'), setattr(h, 'COMRAT', '75.0'))),
+                    ('IC=NM;COMRAT=None', lambda h: (setattr(h, 'IC', 'NM'), setattr(h, 'COMRAT', None))),
+                    ('ICORDS=G;IGEOLO', lambda h: (setattr(h, 'ICORDS', 'G'), setattr(h, 'IGEOLO', geo()))),
+                    ('ICORDS=blank;IGEOLO=None', lambda h: (setattr(h, 'ICORDS', blank), setattr(h, 'IGEOLO', None))),
+                    ('Comments.values=0', lambda h: setattr(h.Comments, 'values', [])),
+                    ('Comments.values=3', lambda h: setattr(h.Comments, 'values', [ImageComment(COMMENT=rtext(rng, 80)) for _ in range(3)])),
+                    ('Comments=ImageComments(9)', lambda h: setattr(h, 'Comments', ImageComments(values=[ImageComment(COMMENT=rtext(rng, 80)) for _ in range(9)]))),
+                    ('UserHeader=some', lambda h: setattr(h, 'UserHeader', user_header(rng, False))),
+                    ('UserHeader=none', lambda h: setattr(h, 'UserHeader', None)),
+                    ('ExtendedHeader=some', lambda h: setattr(h, 'ExtendedHeader', user_header(rng, False))),
+                    ('ExtendedHeader=empty', lambda h: setattr(h, 'ExtendedHeader', user_header(rng))),
+                    ('NROWS,IID', lambda h: (setattr(h, 'NROWS', rint(rng, 8, True)), setattr(h, 'IID1' if ver == 1 else 'IID', rtext(rng, 10))))]
+            return out
+
+        def des_steps(ver):
+            idf = 'DESID' if ver == 1 else 'DESTAG'
+            return [('overflow on', lambda h: (setattr(h, idf, 'TRE_OVERFLOW'), setattr(h, 'DESOFLW', rng.choice(['XHD', 'UDHD'])), setattr(h, 'DESITEM', rng.randint(0, 999)))),
+                    ('overflow off', lambda h: (setattr(h, idf, 'XML_DATA_CONTENT'), setattr(h, 'DESOFLW', None), setattr(h, 'DESITEM', None))),
+                    ('UserHeader=bytes', lambda h: setattr(h, 'UserHeader', DESUserHeader(data=rbytes(rng, rng.randint(1, 60))))),
+                    ('UserHeader=empty', lambda h: setattr(h, 'UserHeader', DESUserHeader(data=b''))),
+                    ('DESVER', lambda h: setattr(h, 'DESVER', rng.randint(1, 99)))]
+
+        def sec0_steps():
+            return [('DWNG=999998;DEVT', lambda h: (setattr(h, 'DWNG', '999998'), setattr(h, 'DEVT', rtext(rng, 40) or 'EVENT'))),
+                    ('DWNG=other;DEVT=None', lambda h: (setattr(h, 'DWNG', '0512Z'), setattr(h, 'DEVT', None))),
+                    ('CLAS', lambda h: setattr(h, 'CLAS', rng.choice(['U', 'S', 'C'])))]
+
+        def loop_steps(cls, make, counts):
+            return [('values=%d' % k, lambda h, k=k: setattr(h, 'values', [make() for _ in range(k)])) for k in counts]
+
+        def hdr_steps(ver):
+            def arrs(h):
+                other = file_header(rng, ver)
+                h.ImageSegments = other.ImageSegments
+                h.DataExtensions = other.DataExtensions
+                h.TextSegments = other.TextSegments
+            return [('segment arrays', arrs),
+                    ('UserHeader=some', lambda h: setattr(h, 'UserHeader', user_header(rng, False))),
+                    ('UserHeader=none', lambda h: setattr(h, 'UserHeader', None)),
+                    ('ExtendedHeader=some', lambda h: setattr(h, 'ExtendedHeader', user_header(rng, False))),
+                    ('FTITLE', lambda h: setattr(h, 'FTITLE', rtext(rng, 80)))]
+
+        def uh_steps():
+            return [('UserHeader=some', lambda h: setattr(h, 'UserHeader', user_header(rng, False))),
+                    ('UserHeader=none', lambda h: setattr(h, 'UserHeader', None)),
+                    ('UserHeader=empty', lambda h: setattr(h, 'UserHeader', user_header(rng)))]
+
+        from sarpy.io.general.nitf_elements.text import TextSegmentHeader
+        from sarpy.io.general.nitf_elements.graphics import GraphicsSegmentHeader
+        families = [
+            ('ImageSegmentHeader', lambda: image_header(rng, 1), img_steps(1)),
+            ('ImageSegmentHeader0', lambda: image_header(rng, 0), img_steps(0)),
+            ('ImageBands', lambda: ImageBands(values=bands(rng.choice([1, 10]))), loop_steps(ImageBands, lambda: image_band(rng), (1, 9, 10, 3, 15, 2))),
+            ('ImageComments', lambda: ImageComments(values=[]), loop_steps(ImageComments, lambda: ImageComment(COMMENT=rtext(rng, 80)), (0, 1, 9, 3))),
+            ('DataExtensionHeader', lambda: des_header(rng, 1), des_steps(1)),
+            ('DataExtensionHeader0', lambda: des_header(rng, 0), des_steps(0)),
+            ('NITFSecurityTags0', lambda: security(rng, 0), sec0_steps()),
+            ('NITFHeader', lambda: file_header(rng, 1), hdr_steps(1)),
+            ('NITFHeader0', lambda: file_header(rng, 0), hdr_steps(0)),
+            ('TextSegmentHeader', lambda: TextSegmentHeader(Security=security(rng, 1), UserHeader=user_header(rng), **rand_kwargs(rng, TextSegmentHeader)), uh_steps()),
+            ('GraphicsSegmentHeader', lambda: GraphicsSegmentHeader(Security=security(rng, 1), UserHeader=user_header(rng), **rand_kwargs(rng, GraphicsSegmentHeader)), uh_steps()),
+        ]
+        for desc, make, steps in families:
+            for hno in range(n_hist):
+                try:
+                    inst = make()
+                    start = 'constructed'
+                    if hno % 2 == 1:      # every other history starts from a DECODED element
+                        inst = inst.__class__.from_bytes(inst.to_bytes() + TRAILER, 0)
+                        start = 'decoded'
+                except Exception as e:
+                    self.fails.append({'kind': 'construct', 'msg': f'{desc}: history start raised {type(e).__name__}: {e}', 'case': desc})
+                    continue
+                if classify(desc, inst):
+                    continue
+                trail = [start]
+                for k in range(n_steps):
+                    name, fn = rng.choice(steps)
+                    trail.append(name)
+                    label = f'{desc}:history[{hno}]:' + ' -> '.join(trail)
+                    try:
+                        fn(inst)
+                    except Exception as e:
+                        # a refused re-assignment is fine; the element must still be what it was (checked by the next step)
+                        st['h_refused_steps'] = st.get('h_refused_steps', 0) + 1
+                        trail[-1] = name + ' (refused: ' + type(e).__name__ + ')'
+                        continue
+                    st['h_steps'] = st.get('h_steps', 0) + 1
+                    st.setdefault('h_step_kinds', {})
+                    st['h_step_kinds'][desc + ':' + name] = st['h_step_kinds'].get(desc + ':' + name, 0) + 1
+                    key = classify(desc, inst)
+                    b = self.check_instance(drv, label, desc, inst, {}, key, history=list(trail))
+                    if b is None:
+                        break
+                    try:
+                        fb = fresh(inst).to_bytes()
+                    except Exception as e:
+                        st['h_fresh_unavailable'] = st.get('h_fresh_unavailable', 0) + 1
+                        continue
+                    st['h_fresh_compared'] = st.get('h_fresh_compared', 0) + 1
+                    if fb != b:
+                        i = next((j for j in range(min(len(b), len(fb))) if b[j] != fb[j]), min(len(b), len(fb)))
+                        f = {'kind': 'history', 'msg': f'{label}: to_bytes() ({len(b)} bytes) differs at byte {i} from the bytes of a freshly constructed '
+                             f'element with the same field values ({len(fb)} bytes): state from the history leaks into the encoding',
+                             'case': label, 'history': list(trail), 'bytes': b.hex(), 'class': desc}
+                        if key:
+                            f['key'] = key
+                        self.fails.append(f)
+                        break
+            st['h_histories'] = st.get('h_histories', 0) + n_hist
+        self.bare_controller_probes(drv)
+
+    def bare_controller_probes(self, drv):
+        """a controlling field re-assigned ALONE (the dependent field is not touched): one step on a fresh element per direction"""
+        rng = self.rng
+        st = self.stats
+
+        def geo():
+            return ''.join(rng.choice('0123456789NSEW') for _ in range(60))
+        probes = []
+        for ver, desc in ((1, 'ImageSegmentHeader'), (0, 'ImageSegmentHeader0')):
+            blank = '' if ver == 1 else 'N'
+            probes += [(desc, 'ICORDS', lambda v=ver: image_header(rng, v, 1, 'G', 'NC', 0, False), lambda h, b=blank: setattr(h, 'ICORDS', b), 'ICORDS: G -> blank'),
+                       (desc, 'ICORDS', lambda v=ver, b=blank: image_header(rng, v, 1, b, 'NC', 0, False), lambda h: setattr(h, 'ICORDS', 'G'), 'ICORDS: blank -> G'),
+                       (desc, 'IC', lambda v=ver: image_header(rng, v, 1, 'G', 'NC', 0, False), lambda h: setattr(h, 'IC', 'C3'), 'IC: NC -> C3'),
+                       (desc, 'IC', lambda v=ver: image_header(rng, v, 1, 'G', 'C3', 0, False), lambda h: setattr(h, 'IC', 'NC'), 'IC: C3 -> NC'),
+                       (desc, 'IC', lambda v=ver: image_header(rng, v, 1, 'G', 'C3', 0, False), lambda h: setattr(h, 'IC', 'C5'), 'IC: C3 -> C5')]
+        for ver, desc, idf in ((1, 'DataExtensionHeader', 'DESID'), (0, 'DataExtensionHeader0', 'DESTAG')):
+            probes += [(desc, idf, lambda v=ver: des_header(rng, v, True, 'UDHD', 'none'), lambda h, f=idf: setattr(h, f, 'XML_DATA_CONTENT'), idf + ': TRE_OVERFLOW -> other'),
+                       (desc, idf, lambda v=ver: des_header(rng, v, False, None, 'none'), lambda h, f=idf: setattr(h, f, 'TRE_OVERFLOW'), idf + ': other -> TRE_OVERFLOW')]
+        probes += [('NITFSecurityTags0', 'DWNG', lambda: security(rng, 0), lambda h: setattr(h, 'DWNG', '999998'), 'DWNG: -> 999998'),
+                   ('NITFSecurityTags0', 'DWNG', lambda: security(rng, 0), lambda h: setattr(h, 'DWNG', '0512Z'), 'DWNG: -> other')]
+        for desc, fld, make, fn, what in probes:
+            try:
+                inst = make()
+            except Exception:
+                continue
+            if classify(desc, inst):
+                continue
+            try:
+                fn(inst)
+            except Exception:
+                st['h_refused_steps'] = st.get('h_refused_steps', 0) + 1
+                continue
+            st['h_bare_probes'] = st.get('h_bare_probes', 0) + 1
+            st['h_steps'] = st.get('h_steps', 0) + 1
+            key = KEY_CTRL.format(cls=desc, fld=fld)
+            self.check_instance(drv, f'{desc}:bare re-assignment {what}', desc, inst, {}, key, history=['constructed', what])
 
     def _tre_jobs(self, drv, label, inst):
         from sarpy.io.general.nitf_elements import base as B
@@ -771,7 +1022,7 @@ class Session:
                 if ans[i_enc] != 'ok ' + info:
                     dis.append({'case': label, 'msg': 'model decodeAll of the TRE area differs from the TRE list', 'model': ans[i_enc][:200], 'python': info[:200]})
                 continue
-            b, v, vb, key = info
+            b, v, vb, key, ln_py = info
             st['x_model_records'] = st.get('x_model_records', 0) + 1
             classes.add(desc)
             d = []
@@ -785,8 +1036,8 @@ class Session:
                 elif hexs != hx(b):
                     i = next((k for k in range(min(len(hexs), len(b.hex()))) if hexs[k] != b.hex()[k]), 0) // 2
                     d.append({'msg': f'model encoding differs from to_bytes() at byte {i}', 'model': hexs[max(0, 2 * i - 20):2 * i + 40], 'python': b.hex()[max(0, 2 * i - 20):2 * i + 40]})
-                elif int(ln) != inst.get_bytes_length():
-                    d.append({'msg': f'model length {ln} != get_bytes_length() {inst.get_bytes_length()}'})
+                elif int(ln) != ln_py:
+                    d.append({'msg': f'model length {ln} != get_bytes_length() {ln_py}'})
                 elif conf != 'true':
                     d.append({'msg': 'the encoding of an accepted value is not conformant for the strict decoder'})
             r = ans[i_dec].split()
@@ -810,3 +1061,26 @@ class Session:
         kept = [x for x in dis if not (x.get('key') and self.chk.known(x['key']))]
         st['x_disagreements_under_known_findings'] = len(dis) - len(kept)
         return self.fails, kept, st
+
+
+def replay_case(case):
+    """a history case: the bytes the mutated element wrote are decoded and re-encoded by the implementation alone"""
+    import logging
+    logging.disable(logging.CRITICAL)
+    import tables_nitf
+    cls = tables_nitf.classes().get(case.get('class'))
+    print('history:', ' -> '.join(case.get('history', [])))
+    if cls is None or not case.get('bytes'):
+        return 1
+    b = bytes.fromhex(case['bytes'])
+    print(f'{cls.__name__}: the element wrote {len(b)} bytes')
+    try:
+        back = cls.from_bytes(b + TRAILER, 0)
+        b2 = back.to_bytes()
+        print(f'from_bytes(..).to_bytes(): {len(b2)} bytes, identical: {b2 == b}; get_bytes_length() = {back.get_bytes_length()}')
+        fb = fresh(back).to_bytes()
+        print(f'freshly constructed element with the decoded field values: {len(fb)} bytes, identical to what was written: {fb == b}')
+        return 0 if (b2 == b and fb == b) else 1
+    except Exception as e:
+        print(f'FAIL from_bytes of the written bytes raised {type(e).__name__}: {e}')
+        return 1
